@@ -17,10 +17,10 @@ use std::panic::{AssertUnwindSafe, catch_unwind};
 use std::str::FromStr;
 use std::sync::{Arc, Barrier};
 
-pub const VARIANTS: [&str; 22] = [
+pub const VARIANTS: [&str; 23] = [
     "sign", "verify-good", "verify-bad", "encrypt", "decrypt-good", "decrypt-bad", "decrypt-wrong-aad", "unwrap-good", "unwrap-bad",
     "pw-unwrap-wrong-password", "unseal-good", "unseal-bad", "id", "clone-drop", "public-key", "pw-unwrap-good", "pw-unwrap-rejected-params",
-    "verify-zero-signature", "decrypt-zero-body", "verify-good-other", "seal-key", "wrap-key",
+    "verify-zero-signature", "decrypt-zero-body", "verify-good-other", "seal-key", "wrap-key", "unseal-degenerate",
 ];
 
 /// Progress heartbeat: an operation of the library that does not return is data, not a tool failure.  The watchdog
@@ -81,6 +81,7 @@ struct Material {
     pw_rejected_params: String,
     sealed: String,
     sealed_bad: String,
+    sealed_degenerate: String,
     deterministic_sign: bool,
 }
 
@@ -149,6 +150,13 @@ fn material<B: Backend>(rng: &mut Prng) -> Material {
         },
         pie_bad: flip_mid(&pie),
         sealed_bad: flip_mid(&sealed),
+        // a sealed key of the right length whose every byte is 0xff: an RSA ciphertext above the modulus, a SEC1 point with an unknown
+        // tag, an X25519 point of the twist - refused in the public-key step rather than by the tag
+        sealed_degenerate: {
+            let hdr = dp::hdr_seal::<B>();
+            let n = crate::b64::dec(&sealed[hdr.len()..]).unwrap().len();
+            format!("{hdr}{}", crate::b64::enc(&vec![0xff; n]))
+        },
         local,
         secret: pair.secret,
         pke_public: rcp.public.clone(),
@@ -224,8 +232,8 @@ fn apply<B: Backend>(v: &str, k: &Keys<B>, m: &Material, check: &Keys<B>) -> (Ou
         "pw-unwrap-good" => (r(PasswordWrappedKey::<B::V, Local>::from_str(&m.pw).and_then(|w| w.unwrap(b"right")).map(|x| key_bytes(&x))), true, true),
         "pw-unwrap-rejected-params" => (r(PasswordWrappedKey::<B::V, Local>::from_str(&m.pw_rejected_params).and_then(|w| w.unwrap(b"right")).map(|x| key_bytes(&x))), true, true),
         "pw-unwrap-wrong-password" => (r(PasswordWrappedKey::<B::V, Local>::from_str(&m.pw).and_then(|w| w.unwrap(b"wrong")).map(|x| key_bytes(&x))), true, true),
-        "unseal-good" | "unseal-bad" => {
-            let s = if v == "unseal-good" { &m.sealed } else { &m.sealed_bad };
+        "unseal-good" | "unseal-bad" | "unseal-degenerate" => {
+            let s = if v == "unseal-good" { &m.sealed } else if v == "unseal-bad" { &m.sealed_bad } else { &m.sealed_degenerate };
             (r(SealedKey::<B::V>::from_str(s).and_then(|w| w.unseal(&k.pke_sec)).map(|x| key_bytes(&x))), true, true)
         }
         "id" => {
